@@ -6,7 +6,15 @@
 //@typemap /\bP::Point\b/ => Vec<Fr>
 //@typemap /Self::VerifierKey/ => VerifierKey
 //@typemap /Self::Commitment/ => marlin_pc::Commitment
+//@typemap /Self::BatchProof/ => Vec<Proof>
 //@typemap /Self::Proof/ => Proof
+//@typemap /&QuerySet<Vec<Fr>>/ => &BTreeSet<(String, (String, Vec<Fr>))>
+//@typemap /&Evaluations<Vec<Fr>, E::ScalarField>/ => &BTreeMap<(String, Vec<Fr>), Fr>
+//@typemap /<'a, R: RngCore>/ => <'a>
+//@typemap /&mut R\b/ => &mut Rng
+//@typemap /E::ScalarField::/ => Fr::
+//@typemap /<E::G1>::zero\(\)/ => G1::zero()
+//@typemap /: E::G1 =/ => : G1 =
 //@typemap /Self::Error/ => Error
 //@typemap /\bMarlin::/ => marlin_pc::Marlin::
 //@enum file=poly-commit/src/error.rs name=Error
@@ -39,6 +47,43 @@ pub open spec fn pst_inner(vk: &VerifierKey, c: FS, v: FS, pr: &Proof) -> FS {
     match pr.random_v { Some(rv) => f_sub(i0, f_mul(vk.gamma_g@, rv@)), None => i0 }
 }
 
+// ---- batch verification ----
+// Marlin::combine_and_normalize is generic in the point type; it is verified for the univariate instance in units/marlin_batch.rs.
+// Here (points = Vec<Fr>) its three output vectors enter as deterministic functions of its inputs.
+pub uninterp spec fn cn_c(cs: Seq<&LabeledCommitment<marlin_pc::Commitment>>, qs: Set<(String, (String, Vec<Fr>))>, ev: Map<(String, Vec<Fr>), Fr>, s: SS) -> Seq<kzg10::Commitment>;
+pub uninterp spec fn cn_q(cs: Seq<&LabeledCommitment<marlin_pc::Commitment>>, qs: Set<(String, (String, Vec<Fr>))>, ev: Map<(String, Vec<Fr>), Fr>, s: SS) -> Seq<Vec<Fr>>;
+pub uninterp spec fn cn_v(cs: Seq<&LabeledCommitment<marlin_pc::Commitment>>, qs: Set<(String, (String, Vec<Fr>))>, ev: Map<(String, Vec<Fr>), Fr>, s: SS) -> Seq<Fr>;
+pub uninterp spec fn cn_s(cs: Seq<&LabeledCommitment<marlin_pc::Commitment>>, qs: Set<(String, (String, Vec<Fr>))>, ev: Map<(String, Vec<Fr>), Fr>, s: SS) -> SS;
+impl marlin_pc::Marlin {
+    #[verifier::external_body]
+    pub fn combine_and_normalize<'a>(commitments: Vec<&'a LabeledCommitment<marlin_pc::Commitment>>, query_set: &BTreeSet<(String, (String, Vec<Fr>))>, evaluations: &BTreeMap<(String, Vec<Fr>), Fr>, sponge: &mut Sponge, vk: Option<&marlin_pc::VerifierKey>)
+        -> (res: Result<(Vec<kzg10::Commitment>, Vec<Vec<Fr>>, Vec<Fr>), Error>)
+        ensures res is Ok ==> res->Ok_0.0@ == cn_c(commitments@, query_set@, evaluations@, old(sponge).st@) && res->Ok_0.1@ == cn_q(commitments@, query_set@, evaluations@, old(sponge).st@)
+            && res->Ok_0.2@ == cn_v(commitments@, query_set@, evaluations@, old(sponge).st@) && final(sponge).st@ == cn_s(commitments@, query_set@, evaluations@, old(sponge).st@)
+            && res->Ok_0.0@.len() == res->Ok_0.1@.len() && res->Ok_0.1@.len() == res->Ok_0.2@.len() { unimplemented!() }
+}
+#[verifier::external_body] pub fn vec_g1_zero(n: usize) -> (r: Vec<G1>) ensures r@.len() == n, forall|i: int| 0 <= i < n ==> (#[trigger] r@[i])@ == f_zero() { unimplemented!() }   // vec![G1::zero(); n]
+pub open spec fn pst_dotw(vk: &VerifierKey, tw: Seq<G1>, j: nat) -> FS decreases j { if j == 0 { f_zero() } else { f_add(pst_dotw(vk, tw, (j - 1) as nat), pair(f_neg(tw[j - 1]@), vk.prepared_beta_h@[j - 1]@)) } }
+pub proof fn lemma_dotw(vk: &VerifierKey, tw: Seq<G1>, pv: Seq<Proof>, id: int, pos: nat, n: nat, j: nat)
+    requires j <= tw.len(), forall|jj: int| 0 <= jj < tw.len() ==> (#[trigger] tw[jj])@ == pb_tw(pv, id, pos, jj, n)
+    ensures pst_dotw(vk, tw, j) == pb_pair_w(vk, pv, id, pos, n, j)
+    decreases j
+{ if j > 0 { lemma_dotw(vk, tw, pv, id, pos, n, (j - 1) as nat); } }
+// randomiser of query i, and the adjusted commitment  C_i + sum_j z_ij w_ij  of query i
+pub open spec fn pb_r(id: int, pos: nat, i: nat) -> FS { if i == 0 { f_one() } else { draw_u128(id, (pos + i - 1) as nat) } }
+pub open spec fn pb_zw(w: Seq<G1Affine>, z: Seq<Fr>, k: nat) -> FS decreases k { if k == 0 { f_zero() } else { f_add(pb_zw(w, z, (k - 1) as nat), f_mul(w[k - 1]@, z[k - 1]@)) } }
+pub open spec fn pb_tc(cc: Seq<kzg10::Commitment>, qq: Seq<Vec<Fr>>, pv: Seq<Proof>, id: int, pos: nat, k: nat) -> FS decreases k {
+    if k == 0 { f_zero() } else { f_add(pb_tc(cc, qq, pv, id, pos, (k - 1) as nat), f_mul(f_add(pb_zw(pv[k - 1].w@, qq[k - 1]@, pv[k - 1].w@.len()), cc[k - 1].0@), pb_r(id, pos, (k - 1) as nat))) }
+}
+pub open spec fn pb_gm(ee: Seq<Fr>, id: int, pos: nat, k: nat) -> FS decreases k { if k == 0 { f_zero() } else { f_add(pb_gm(ee, id, pos, (k - 1) as nat), f_mul(pb_r(id, pos, (k - 1) as nat), ee[k - 1]@)) } }
+pub open spec fn pb_ggm(pv: Seq<Proof>, id: int, pos: nat, k: nat) -> FS decreases k {
+    if k == 0 { f_zero() } else { let p = pb_ggm(pv, id, pos, (k - 1) as nat); match pv[k - 1].random_v { Some(rv) => f_add(p, f_mul(pb_r(id, pos, (k - 1) as nat), rv@)), None => p } }
+}
+// total_w[j] = sum_i r_i * w_ij
+pub open spec fn pb_tw(pv: Seq<Proof>, id: int, pos: nat, j: int, k: nat) -> FS decreases k { if k == 0 { f_zero() } else { f_add(pb_tw(pv, id, pos, j, (k - 1) as nat), f_mul(pv[k - 1].w@[j]@, pb_r(id, pos, (k - 1) as nat))) } }
+pub open spec fn pb_pair_w(vk: &VerifierKey, pv: Seq<Proof>, id: int, pos: nat, n: nat, j: nat) -> FS decreases j {
+    if j == 0 { f_zero() } else { f_add(pb_pair_w(vk, pv, id, pos, n, (j - 1) as nat), pair(f_neg(pb_tw(pv, id, pos, j - 1, n)), vk.prepared_beta_h@[j - 1]@)) }
+}
 pub struct MarlinPST13;
 impl MarlinPST13 {
 //@fn id=pst13.check file=poly-commit/src/marlin/marlin_pst13_pc/mod.rs scope="impl<E, P> PolynomialCommitment<E::ScalarField, P> for MarlinPST13<E, P>" name=check props=C10,C02,C03,C11
@@ -86,5 +131,74 @@ impl MarlinPST13 {
 //@rw 1 /vk\.beta_h\[j\]/ => (*at(&vk.beta_h, j))
 //@rw 1 /point\[j\]/ => at_fr(point, j)
 //@rw 1 /(?s)(let beta_minus_z: E::G2Affine =\s*\(.*?\))\.into\(\);/ => \1.into_affine();
+//@end
+
+//@fn id=pst13.batch_check file=poly-commit/src/marlin/marlin_pst13_pc/mod.rs scope="impl<E, P> PolynomialCommitment<E::ScalarField, P> for MarlinPST13<E, P>" name=batch_check props=C05,C03,C10
+    fn batch_check<'a>(vk: &VerifierKey, commitments: Vec<&'a LabeledCommitment<marlin_pc::Commitment>>, query_set: &BTreeSet<(String, (String, Vec<Fr>))>, values: &BTreeMap<(String, Vec<Fr>), Fr>, proof: &Vec<Proof>, sponge: &mut Sponge, rng: &mut Rng) -> (res: Result<bool, Error>)
+    requires
+        rng.present@, vk.prepared_beta_h@.len() >= vk.num_vars,
+    ensures
+        // one proof per combined query (otherwise abort)   [fix 3f7fbb0 of finding F4]
+        res is Ok ==> proof@.len() == cn_q(commitments@, query_set@, values@, old(sponge).st@).len(),   // name=pst13.batch_check.one_proof_per_query_point props=C05,C03
+        // accepted iff  e(sum_i r_i (C_i + sum_j z_ij w_ij) - (sum r_i v_i) G - (sum r_i rv_i) gamma G, H) * prod_j e(-sum_i r_i w_ij, beta_j H) = 1
+        res is Ok ==> { let cc = cn_c(commitments@, query_set@, values@, old(sponge).st@); let qq = cn_q(commitments@, query_set@, values@, old(sponge).st@); let ee = cn_v(commitments@, query_set@, values@, old(sponge).st@);
+            let n = proof@.len();
+            res->Ok_0 == (f_add(pb_pair_w(vk, proof@, old(rng).id@, old(rng).pos@, n, vk.num_vars as nat),
+                pair(f_sub(f_sub(pb_tc(cc, qq, proof@, old(rng).id@, old(rng).pos@, n), f_mul(vk.g@, pb_gm(ee, old(rng).id@, old(rng).pos@, n))), f_mul(vk.gamma_g@, pb_ggm(proof@, old(rng).id@, old(rng).pos@, n))), vk.prepared_h@)) == f_zero()) },   // name=pst13.batch_check.randomised_pairing_equation props=C05,C10
+//@body
+//@rw 1 /let mut total_w = vec!\[G1::zero\(\); vk\.num_vars\];|let mut total_w = vec!\[<E::G1>::zero\(\); vk\.num_vars\];/ => let mut total_w: Vec<G1> = vec_g1_zero(vk.num_vars);
+//@rw 1 /(?s)for \(\(\(c, z\), v\), proof\) in([^{]*?)combined_comms\s*\.iter\(\)\s*\.zip\(combined_queries\)\s*\.zip\(combined_evals\)\s*\.zip\(proof\)/ => let pf__: &Vec<Proof> = proof; for (((c, z), v), proof) in\1combined_comms.iter().zip(combined_queries).zip(combined_evals).zip(pf__.iter())
+//@rw 1 /(?s)let mut temp: E::G1 = ark_std::cfg_iter!\(w\)\s*\.enumerate\(\)\s*\.map\(\|\(j, w_j\)\| w_j\.mul\(z\[j\]\)\)\s*\.sum\(\);/ => let mut temp: G1 = G1::zero();
+            let mut j: usize = 0;
+            for w_j in itw: w.iter()
+                invariant j == itw.index@, itw.index@ <= w@.len(), temp@ == pb_zw(w@, z@, j as nat),
+            { temp += &w_j.mul(at_fr(&z, j)); ctr_inc(&mut j); }
+//@rw 1 /(?s)ark_std::cfg_iter_mut!\(total_w\)\s*\.enumerate\(\)\s*\.for_each\(\|\(i, w_i\)\| \*w_i \+= &w\[i\]\.mul\(randomizer\)\);/ => let mut i: usize = 0;
+            while i < total_w.len()
+                invariant i <= total_w@.len(), total_w@.len() == vk.num_vars, 0 <= nq < pv0.len(), *w == pv0[nq as int].w, randomizer@ == pb_r(id0, pos0, nq as nat),
+                    forall|jj: int| 0 <= jj < i ==> jj < w@.len() && (#[trigger] total_w@[jj])@ == pb_tw(pv0, id0, pos0, jj, (nq + 1) as nat),
+                    forall|jj: int| i <= jj < total_w@.len() ==> (#[trigger] total_w@[jj])@ == pb_tw(pv0, id0, pos0, jj, nq as nat),
+                decreases total_w@.len() - i,
+            { let mut t__ = total_w[i]; let ghost t0 = t__@; t__ += &at(w, i).mul(randomizer);
+              proof { assert(t0 == pb_tw(pv0, id0, pos0, i as int, nq as nat)); assert(t__@ == f_add(t0, f_mul(w@[i as int]@, randomizer@))); assert(pb_tw(pv0, id0, pos0, i as int, (nq + 1) as nat) == f_add(pb_tw(pv0, id0, pos0, i as int, nq as nat), f_mul(pv0[nq as int].w@[i as int]@, pb_r(id0, pos0, nq as nat)))); }
+              total_w.set(i, t__); i = i + 1; }
+//@rw 1 /u128::rand\(rng\)\.into\(\)/ => Fr::from_u128_rand(rng)
+//@rw 1 /(?s)let \(mut p1, mut p2\): \(Vec<E::G1Prepared>, Vec<E::G2Prepared>\) = total_w\s*\.into_iter\(\)\s*\.enumerate\(\)\s*\.map\(\|\(j, w_j\)\| \(\(-w_j\)\.into_affine\(\)\.into\(\), vk\.prepared_beta_h\[j\]\.clone\(\)\)\)\s*\.unzip\(\);/ => let mut p1: Vec<G1Prepared> = Vec::new(); let mut p2: Vec<G2Prepared> = Vec::new();
+        let mut j: usize = 0;
+        for w_j in itp: total_w.iter()
+            invariant j == itp.index@, itp.index@ <= total_w@.len(), total_w@.len() == vk.num_vars, vk.prepared_beta_h@.len() >= vk.num_vars, p1@.len() == j, p2@.len() == j,
+                dot(g1prep_views(p1@), g2prep_views(p2@), j as nat) == pst_dotw(vk, total_w@, j as nat),
+        {
+            let ghost a0 = p1@; let ghost b0 = p2@;
+            p1.push(g1_prepare((-*w_j).into_affine())); p2.push(vk.prepared_beta_h[j]);
+            proof { lemma_dot_ext(g1prep_views(p1@), g1prep_views(a0), g2prep_views(p2@), g2prep_views(b0), j as nat); }
+            ctr_inc(&mut j);
+        }
+//@rw 1 /p1\.push\(total_c\.into_affine\(\)\.into\(\)\);/ => p1.push(g1_prepare(total_c.into_affine()));
+//@rw 1 /p2\.push\(vk\.prepared_h\.clone\(\)\);/ => p2.push(vk.prepared_h);
+//@rw 1 /assert_eq!\(proof\.len\(\), combined_queries\.len\(\)\);/ => assert_eq!(proof.len(), combined_queries.len());
+//@after start
+        let ghost id0 = rng.id@; let ghost pos0 = rng.pos@; let ghost pv0 = proof@;
+//@after /Marlin::<E, P, Self>::combine_and_normalize\(/
+        let ghost cc = combined_comms@; let ghost qq = combined_queries@; let ghost ee = combined_evals@;
+//@loop 1 kw=for name=it
+            invariant it.index@ <= pv0.len(), pv0.len() == qq.len(), qq.len() == cc.len(), cc.len() == ee.len(), combined_comms@ == cc, combined_queries@ == qq, combined_evals@ == ee, pf__@ == pv0,
+                total_w@.len() == vk.num_vars, rng.id@ == id0, rng.present@, rng.pos@ == pos0 + it.index@, randomizer@ == pb_r(id0, pos0, it.index@ as nat),
+                total_c@ == pb_tc(cc, qq, pv0, id0, pos0, it.index@ as nat),
+                g_multiplier@ == pb_gm(ee, id0, pos0, it.index@ as nat), gamma_g_multiplier@ == pb_ggm(pv0, id0, pos0, it.index@ as nat),
+                forall|jj: int| 0 <= jj < total_w@.len() ==> (#[trigger] total_w@[jj])@ == pb_tw(pv0, id0, pos0, jj, it.index@ as nat),
+//@loopstart 1
+            let ghost nq = it.index@;
+            proof { assert(*proof == pv0[nq]); assert(*c == cc[nq]); assert(z == qq[nq]); assert(v == ee[nq]); }
+//@before /p1\.push\(total_c\.into_affine\(\)\.into\(\)\);/
+        let ghost a1 = p1@; let ghost b1 = p2@; let ghost tw = total_w@;
+//@before /let pairing_time =/
+        proof {
+            let n = pv0.len();
+            let nv = vk.num_vars as nat;
+            lemma_dot_ext(g1prep_views(p1@), g1prep_views(a1), g2prep_views(p2@), g2prep_views(b1), nv);
+            assert(dot(g1prep_views(p1@), g2prep_views(p2@), nv + 1) == f_add(pst_dotw(vk, tw, nv), pair(total_c@, vk.prepared_h@)));
+            lemma_dotw(vk, tw, pv0, id0, pos0, n, nv);
+        }
 //@end
 }
